@@ -97,7 +97,7 @@ Init0 ==
      wCK |-> <<>>, wKC |-> <<>>,
      kRw |-> W2, kGot |-> <<>>, kEof |-> 0, kSst |-> "open",
      \* transient (empty whenever the loop is idle)
-     rdy |-> <<>>, cur |-> 0, dwake |-> {},
+     rdy |-> <<>>, cur |-> 0,
      \* ghosts
      drop |-> {}, bad |-> {}, trig |-> {}, eofDue |-> FALSE,
      nrb |-> 0, nrc |-> 0, nal |-> 0, ncol |-> 0]
@@ -116,7 +116,8 @@ ShouldPause(S) == S.bPws # {} \/ (S.bLimit > 0 /\ RbufLen(S) >= S.bLimit)
 ShouldBlockDrain(S, dt) == S.cR[dt] # 0 \/ (S.cWp /\ ~S.cLost)
 \* SSHStreamSession._unblock_drain
 UnblockDrain(S, dt) ==
-    IF ~ShouldBlockDrain(S, dt) THEN [S EXCEPT !.dwake = @ \cup {dt}] ELSE S
+    IF ~ShouldBlockDrain(S, dt) /\ S.cDrain[dt] = "wait" /\ <<"dr", dt>> \notin Range(S.rdy)
+    THEN [S EXCEPT !.rdy = Append(@, <<"dr", dt>>)] ELSE S
 
 RECURSIVE BSessData(_, _, _), TWrite(_, _, _), BPauseFeeding(_, _), BResumeFeeding(_, _),
           BMaybeResume(_), BFlushRecv(_), BDeliverData(_, _), BEofReceived(_),
@@ -227,7 +228,9 @@ TClose(S, t) ==
 \* SSHProcess.clear_writer
 BClearWriter(S, dt) ==
     IF FixCW
-    THEN LET S1 == [S EXCEPT !.bW[dt] = 0]
+    THEN LET S1 == [S EXCEPT !.bW[dt] = 0,
+                             !.trig = IF dt \in S.bPws /\ S.bRp
+                                      THEN @ \cup {"close_paused_writer"} ELSE @]
          IN IF dt \in S.bPws THEN BResumeFeeding(S1, dt) ELSE S1
     ELSE LET S1 == IF dt \in S.bPws THEN BResumeFeeding(S, dt) ELSE S
          IN [S1 EXCEPT !.bW[dt] = 0]
@@ -423,13 +426,18 @@ CCleanup(S) ==
         ord == S2.cOrd
         S3 == IF Len(ord) >= 1 /\ S2.cR[ord[1]] # 0 THEN SrcClose(S2, S2.cR[ord[1]]) ELSE S2
         S4 == IF Len(ord) >= 2 /\ S3.cR[ord[2]] # 0 THEN SrcClose(S3, S3.cR[ord[2]]) ELSE S3
-        hung == \E d \in DT2 : S4.cDrain[d] = "wait" /\ d \notin S4.dwake
+        hung == \E d \in DT2 : S4.cDrain[d] = "wait" /\ <<"dr", d>> \notin Range(S4.rdy)
         S5 == [S4 EXCEPT !.cR = [d \in DT2 |-> 0], !.cOrd = <<>>]
     IN IF FixDC THEN UnblockDrain(UnblockDrain(IF hung THEN Trig(S5, "drain_close") ELSE S5, "x"), "y")
        ELSE S5
 
 -----------------------------------------------------------------------------
 (* the event loop: woken tasks and call_soon callbacks in FIFO order *)
+
+\* drain(): the woken waiter looks again
+DrainWoken(S, d) ==
+    IF S.cDrain[d] # "wait" \/ ShouldBlockDrain(S, d) THEN S
+    ELSE [S EXCEPT !.cDrain[d] = IF S.cLost /\ S.cWp THEN "exc" ELSE "ret"]
 
 RunReady(S) ==
     IF S.rdy = <<>> THEN S
@@ -441,6 +449,7 @@ RunReady(S) ==
                 [] h[1] = "s" -> SrcTask(S1, h[2], S1.src[h[2]].task = "reading")
                 [] h[1] = "bcln" -> BCleanup(S1)
                 [] h[1] = "ccln" -> CCleanup(S1)
+                [] h[1] = "dr" -> DrainWoken(S1, h[2])
                 [] OTHER -> S1)
 
 Joined(T) == T.fin /\ T.q = <<>>
@@ -454,14 +463,7 @@ WaitCheck(S) ==
                    !.bRbuf = [d \in DT2 |-> <<>>]]
     ELSE S
 
-\* drain(): the waiter re-checks once it has been woken
-DrainCheck(S) ==
-    LET res(d) == IF S.cDrain[d] = "wait" /\ d \in S.dwake /\ ~ShouldBlockDrain(S, d)
-                  THEN IF S.cLost /\ S.cWp THEN "exc" ELSE "ret"
-                  ELSE S.cDrain[d]
-    IN [S EXCEPT !.cDrain = [d \in DT2 |-> res(d)], !.dwake = {}]
-
-Settle(S) == DrainCheck(WaitCheck(RunReady(S)))
+Settle(S) == WaitCheck(RunReady(S))
 
 -----------------------------------------------------------------------------
 (* packets *)
@@ -838,7 +840,7 @@ WaitersResolve ==
     /\ st.bLost /\ st.bWait = "pending" => \E t \in DOMAIN st.tg : st.tg[t].allow # INF
     /\ st.cLost => \A d \in DT2 : st.cDrain[d] # "wait"
 
-TransientEmpty == st.rdy = <<>> /\ st.cur = 0 /\ st.dwake = {}
+TransientEmpty == st.rdy = <<>> /\ st.cur = 0
 
 \* vacuity witnesses (each must be reported violated = reachable)
 NeverPausedWriter == \A t \in DOMAIN st.tg : ~st.tg[t].wp
